@@ -207,9 +207,14 @@ func adversarial(c *ctx, tier string) {
 	for _, f := range bf {
 		for _, n := range big[f] {
 			if tier == "thorough" {
-				// these go through coqc in the thorough tier (about a minute each): spread them over
-				// the shards of the generated programs instead of piling them into one shard
-				c.deferred = append(c.deferred, func() { runAdv(c, f, n) })
+				// the 25550/25551-field ones go through coqc in the thorough tier (about a minute each):
+				// spread them over the shards of the generated programs
+				force := n == 25550 || n == 25551
+				c.deferred = append(c.deferred, func() {
+					c.forceCoq = force
+					runAdv(c, f, n)
+					c.forceCoq = false
+				})
 			} else {
 				runAdv(c, f, n)
 			}
